@@ -74,3 +74,26 @@ where
         self.allocator.clear();
     }
 }
+
+#[cfg(feature = "verif-hooks")]
+impl<T> PacketIdManager<T>
+where
+    T: IsPacketId,
+{
+    /// Verification hook: free id intervals of the underlying allocator.
+    pub fn verif_intervals(&self) -> alloc::vec::Vec<(T, T)> {
+        self.allocator.verif_intervals().0
+    }
+}
+
+#[cfg(feature = "verif-hooks")]
+impl<T> Clone for PacketIdManager<T>
+where
+    T: IsPacketId,
+{
+    fn clone(&self) -> Self {
+        Self {
+            allocator: self.allocator.clone(),
+        }
+    }
+}
